@@ -329,8 +329,11 @@ func simSearch(t *testing.T, opts map[string]string) {
 		seed := runSeedOf(master, run)
 		gr := &Rng{s: seed ^ 0x5bd1e995}
 		plan := scn.Gen(gr, tier, opts)
-		rec := execRun(t, name, scn, plan, seed, nil, false, opts)
+		rec := execRun(t, name, scn, plan, seed, nil, os.Getenv("VSIM_TRACE") != "", opts)
 		rec.Run = run
+		if tf := os.Getenv("VSIM_TRACE_FILE"); tf != "" {
+			_ = os.WriteFile(tf, []byte(strings.Join(rec.Trace, "\n")), 0o644)
+		}
 		if rec.Result == "violation" {
 			viol++
 			rec.Plan = plan
